@@ -477,6 +477,12 @@ func (t *Transaction) isValid() error {
 	if len(t.Signers) == 0 {
 		return ErrEmptySigners
 	}
+	if len(t.Signers) > MaxAttributes {
+		return errors.New("too many signers")
+	}
+	if len(t.Attributes) > MaxAttributes-len(t.Signers) {
+		return errors.New("too many attributes")
+	}
 	for i := range t.Signers {
 		for j := i + 1; j < len(t.Signers); j++ {
 			if t.Signers[i].Account.Equals(t.Signers[j].Account) {
